@@ -229,8 +229,8 @@ PLANS = {
     ),
     'C12': dict(
         module='RucteProps.C12',
-        extra_modules=['RucteProps.C12Conflicts'],
-        theorems=['Ructe.C12.applyWrite_post', 'Ructe.C12.incremental_eq_clean', 'Ructe.C12.second_run_silent', 'Ructe.C12.untouched_elsewhere', 'Ructe.C12.runLog_get',
+        extra_modules=['RucteProps.C12Conflicts', 'RucteProps.C12Abort'],
+        theorems=['Ructe.C12Abort.incremental_eq_cleanA', 'Ructe.C12Abort.untouched_elsewhereA', 'Ructe.C12Abort.second_run_silentA', 'Ructe.C12Abort.repaired_run_eq_clean', 'Ructe.C12.applyWrite_post', 'Ructe.C12.incremental_eq_clean', 'Ructe.C12.second_run_silent', 'Ructe.C12.untouched_elsewhere', 'Ructe.C12.runLog_get',
                   'Ructe.C12.history_then_run_eq_clean', 'Ructe.C12.crashedAt_complete', 'Ructe.C12.rerun_repairs_truncation',
                   'Ructe.C12.second_run_writes_only_conflicts', 'Ructe.C12.foldl_applyWrite_only_conflicts'],
         runs=[dict(suite='script', mix='history', n=dict(quick=120, thorough=1200), projection='script+files+writes', tags=['C12'])],
